@@ -16,7 +16,7 @@ check("C17", "S", "exploration", "runtime contract (icontract ensure) on the rea
       "All assignments of subsets of three state names to up to three images (and memory files) are enumerated and thousands of "
       "random listings in both qemu-img layouts are rendered; the real QCOW2VTBackend.show / QCOW2Backend.show / "
       "RamfileBackend._show are executed on them and a postcondition compares every result with the intersection computed "
-      "independently (images configured read-only still count). Sampling beyond the enumerated core: held on the executions observed, "
+      "independently (images configured read-only still count; lock files left by transfers lie beside the memory files). Sampling beyond the enumerated core: held on the executions observed, "
       "not a proof.",
       "Trusted: the port of qemu's size_to_str and row format used to render listings; QemuImg and os replaced at the same "
       "seams the selftests use.", "DESIGN.md §3 C17")
@@ -25,12 +25,14 @@ check("C16", "S", "exploration", "runtime contracts (icontract ensure) on the re
       "Postconditions on PrefixTree.get/__contains__ and EdgeRegister.get_counters/get_workers compare every answer with a naive model kept "
       "beside each live instance. The small scope (2 set variants, 3-4 letters, names <=3 variants, <=3 names, every insertion order, every "
       "query up to length 3) is enumerated completely; larger random name sets, random register/lookup sequences and real TestNode copies "
-      "bridged in every order (registrations through one copy must be visible through all) are sampled.",
+      "bridged in every order, both the way the parser does it (the new node bridges with all older ones) and the way the update tool does it "
+      "(all ordered pairs), are sampled: registrations through one copy must be visible through all.",
       "Trusted: the naive contiguous-subsequence scan. Names obey the stated quantifier (set variant first and nowhere else, no repeated variant).",
       "DESIGN.md §3 C16")
 
 check("C18", "S", "exploration", "icontract class invariant on the real VMNetwork + snapshot postconditions on VMNetconfig address arithmetic, ipaddress as reference",
-      "A class invariant (every interface in exactly one netconfig, under its own address, inside the subnet, no duplicate address) is "
+      "A class invariant (every interface in exactly one netconfig, under its own address, inside the subnet, no duplicate address, every "
+      "netconfig with its own allocation table; subnets with explicit and with the default range) is "
       "evaluated after construction and after every public method of the real VMNetwork on thousands of random topologies and "
       "allocate/drain/reattach/translate sequences and after moving whole subnets to another address with the same, no or another mask "
       "(the invariant also compares netmask and mask_bit of every netconfig); postconditions check first-free allocation, exactly-|range| "
@@ -167,6 +169,7 @@ check("C09", "P", "exploration", "per-worker canonical subgraph comparison, brid
       "Per-worker copies must have identical dependencies for every class they share; equivalent tests of all workers must be linked "
       "pairwise and share the same four register objects; after a lazy traversal every expanded test has the parents of the up-front graph "
       "and every selected compatible leaf was expanded; parsing twice gives the same graph. Besides the drawn cases every run covers a "
+      "run-wide override of a parameter the shipped configuration sets itself (it must reach every parsed test) and a "
       "fixed core: each shipped selection (incl. selections mixing test sets and vm restrictions spelled like an alternative of a test's "
       "own OR-restriction) once.", _P_NOTE, "DESIGN.md §3 C09")
 
